@@ -176,7 +176,7 @@ def synthesise(c, nmax):
     for a in c['order']:
         s0, s1 = seq(P0, a), seq(P1, a)
         allf = [f for f in s0 + s1 if f is not None]
-        if any(f[0] == 'derived' for f in allf):
+        if any(f[0] == 'derived' for f in allf) or a in c.get('computed', []):
             dropped.append(a)
             continue
         why = None
